@@ -1016,4 +1016,52 @@ end merge
 example : DatesEquationsCondLhs lagOfLater [1, 2] ∧ ¬ EquationsDatesCondLhs lagOfLater [1, 2] := by
   unfold DatesEquationsCondLhs EquationsDatesCondLhs; decide
 
+/-! ## 13. The model object: re-ordering, re-finalizing, row numbers -/
+
+section object
+variable {β : Type}
+
+/-- **Invariant of the object**: after any sequence of operations (re-orderings, copies, simulations) started from a freshly
+built object, the object IS the freshly built object for the equations in their current order — in particular the compiled
+evaluators carry the row numbers of the numbering in force, never those of an earlier order. -/
+theorem object_after_ops (numOf : List (Equation β) → Nat → Nat) (ops : List ObjOp) (src : List (Equation β)) :
+    ops.foldl (ModelObj.apply numOf) (ModelObj.finalize numOf src) = ModelObj.finalize numOf (sourceAfter ops src) := by
+  induction ops generalizing src with
+  | nil => rfl
+  | cons op rest ih =>
+    simp only [List.foldl_cons, sourceAfter]
+    cases op with
+    | reorder perm => exact ih (reorderList perm src)
+    | copy => exact ih src
+    | simulate => exact ih src
+
+variable [Carrier β]
+
+/-- **Simulation after any sequence of re-orderings = simulation of the freshly built model in that order = the name-level
+semantics.**  Whatever operations the object went through, simulating with its compiled evaluators on a data array (and plan)
+laid out by its numbering gives, through that numbering, exactly the result of the name-level simulation of the equations in
+their current order: same errors, same value in every cell.  (`numOf src` must be injective on names, as a row numbering is.) -/
+theorem simulate_after_ops (numOf : List (Equation β) → Nat → Nat) (hinj : ∀ src, Function.Injective (numOf src))
+    (ops : List ObjOp) (src : List (Equation β)) (plan plan' : Plan) (tbl tbl' : Table β) (sched : List (Int × Nat)) :
+    let obj := ops.foldl (ModelObj.apply numOf) (ModelObj.finalize numOf src)
+    PlanAgree obj.numbering plan plan' → Agree obj.numbering tbl tbl' →
+    RelE obj.numbering (simulateV (sourceAfter ops src) plan tbl sched) (simulateV obj.compiled plan' tbl' sched) := by
+  intro obj hp ht
+  have hobj : obj = ModelObj.finalize numOf (sourceAfter ops src) := object_after_ops numOf ops src
+  rw [hobj] at hp ht ⊢
+  exact simulateWith_rename _ (hinj _) _ _ _ plan plan' hp sched tbl tbl' ht
+
+/-- row numbering is immaterial (restated for `simulateV`): the harness's own numbering and irispie's give the same results -/
+theorem simulateV_rename (num : Nat → Nat) (hinj : Function.Injective num) (eqs : List (Equation β)) (plan plan' : Plan)
+    (hp : PlanAgree num plan plan') (sched : List (Int × Nat)) (tbl tbl' : Table β) (h : Agree num tbl tbl') :
+    RelE num (simulateV eqs plan tbl sched) (simulateV (eqs.map (Equation.rename num)) plan' tbl' sched) :=
+  simulateWith_rename num hinj _ _ eqs plan plan' hp sched tbl tbl' h
+
+end object
+
+/-- non-vacuity: two re-orderings and a copy of a two-equation object; shifting every row by 10 is an injective numbering -/
+example : sourceAfter [.reorder [1, 0], .copy, .simulate, .reorder [1, 0]] lagOfLater = lagOfLater := rfl
+example : Function.Injective (fun n : Nat => n + 10) := fun a b h => by simp only at h; omega
+example : reorderList [2, 0, 1] ["a", "b", "c"] = ["c", "a", "b"] := by decide
+
 end IrisVerif.C17
